@@ -5,7 +5,9 @@
    Proofs/ConformingProofs (silence of the tokenizer on conforming statement lines). *)
 From NV Require Import Model.Base Model.Diag Model.Lexer Model.Errors Model.Cli Spec.CConst Spec.Conforming
   Gen.ErrOrder Gen.MainExit Gen.Emitters Gen.HeaderRe Gen.HeaderSM Model.Header Model.GuardBase Gen.Guard Model.Guard
-  Proofs.EmittersProofs Proofs.ConformingProofs.
+  Proofs.EmittersProofs Proofs.ConformingProofs Proofs.ConformingChecks Proofs.ConformingCounters.
+From NV Require Import Model.RuleChecks Gen.RuleChecks Gen.MoreChecks Proofs.RuleChecksProofs Proofs.RuleChecksProofs2
+  Proofs.MoreChecksProofs.
 From NV Require Props.C04 Props.C11 Props.C13 Props.C14.
 From Coq Require Import String.
 Local Open Scope string_scope.
@@ -22,7 +24,98 @@ Proof.
   split; [exact only_emitter_lexical|exact emitters_opaque_free].
 Qed.
 
+(* ------------------------------------------------------------------ the translated checks: silent on conforming statements *)
+(* the codes of the checks proved silent as a whole that ONE file only can emit (Gen/Emitters.v).  LINE_TOO_LONG is also
+   emitted by check_comment_line_len.py, TOO_MANY_INSTR by check_assignation.py and SPACE_EMPTY_LINE by check_spacing.py:
+   for those three codes only the named check is proved silent, not the code *)
+Definition silent_check_codes : list (string * string) :=
+  [("norminette/rules/check_ternary.py", "TERNARY_FBIDDEN");
+   ("norminette/rules/check_label.py", "GOTO_FBIDDEN"); ("norminette/rules/check_label.py", "LABEL_FBIDDEN");
+   ("norminette/rules/check_functions_count.py", "TOO_MANY_FUNCS");
+   ("norminette/rules/check_empty_line.py", "EMPTY_LINE_FILE_START"); ("norminette/rules/check_empty_line.py", "NL_AFTER_VAR_DECL");
+   ("norminette/rules/check_empty_line.py", "NL_AFTER_PREPROC"); ("norminette/rules/check_empty_line.py", "CONSECUTIVE_NEWLINES");
+   ("norminette/rules/check_empty_line.py", "EMPTY_LINE_FUNCTION"); ("norminette/rules/check_empty_line.py", "EMPTY_LINE_EOF")].
+Lemma silent_check_codes_tied : forallb (fun fc => only_in (fst fc) (snd fc)) silent_check_codes = true.
+Proof. vm_compute. reflexivity. Qed.
+
+(* the tokens of a conforming text contain none of the kinds G never writes *)
+Lemma free_of_types kinds (toks : list token) : forallb (fun ty => negb (str_in ty kinds)) (map t_type toks) = true -> free kinds toks.
+Proof.
+  unfold free. induction toks as [|t toks IH]; cbn [map forallb]; intros H; constructor.
+  - apply andb_true_iff in H as [H _]. now apply negb_true_iff in H.
+  - apply IH. now apply andb_true_iff in H as [_ H].
+Qed.
+Lemma free_suffix kinds (a b : list token) : free kinds (a ++ b)%list -> free kinds b.
+Proof. unfold free. intros H. apply Forall_app in H. tauto. Qed.
+
+Theorem conforming_text_kinds : forall ls, chain ls = true -> kinds_ok ls = true ->
+  exists items xf, lex nouni nouni (render ls) = Ok (items, xf) /\ errs xf = [] /\
+    forall done toks, tokens_of items = (done ++ toks)%list -> free forbidden_kinds toks.
+Proof.
+  intros ls Hc Hk. destruct (conforming_text_tokens ls Hc) as (items & xf & H1 & H2 & _ & _ & H5).
+  exists items, xf. split; [exact H1|]. split; [exact H2|]. intros done toks E.
+  apply (free_suffix _ done). rewrite <- E. apply free_of_types. rewrite H5. unfold kinds_ok in Hk.
+  clear -Hk. induction ls as [|a ls IH]; [reflexivity|]. cbn [map forallb] in *. apply andb_true_iff in Hk as [A B].
+  rewrite A. cbn [andb]. now apply IH.
+Qed.
+
+Definition C01_checks_silent_statement : Prop :=
+  (* ten codes of checks proved silent as a whole can only come from those checks *)
+  forallb (fun fc => only_in (fst fc) (snd fc)) silent_check_codes = true /\
+  (* K: every statement (remaining tokens `toks`) of a conforming text - any number of lines - is free of the forbidden kinds *)
+  (forall ls, chain ls = true -> kinds_ok ls = true ->
+     exists items xf, lex nouni nouni (render ls) = Ok (items, xf) /\ errs xf = [] /\
+       forall done toks, tokens_of items = (done ++ toks)%list -> free forbidden_kinds toks) /\
+  (* CheckTernary, CheckLabel: silent on every statement of such a text, in every context *)
+  (forall toks scope v, free forbidden_kinds toks -> check_ternary toks scope v = Ok ([], v)) /\
+  (forall toks scope v, free forbidden_kinds toks -> check_label toks scope v = Ok ([], v)) /\
+  (* CheckLineLen: no token of the statement beyond column 81 (C03: every token that starts on a line of width <= 80) *)
+  (forall toks scope v, (forall t, In t (py_slice_to toks scope) -> (t_col t <= 81)%Z) -> check_line_len toks scope v = Ok ([], v)) /\
+  (* CheckManyInstructions: the statement starts in column 1 *)
+  (forall toks scope v t0, peek toks 0 = Some t0 -> (t_col t0 <= 1)%Z -> check_many_instructions toks scope v = Ok ([], v)) /\
+  (* CheckEmptyLine: on a statement, and on an empty line *)
+  (forall toks scope v h1 rest, v_history v = h1 :: rest -> str_eqb h1 r_empty = false ->
+     (str_eqb (v_scope_name v) n_global || str_eqb h1 r_vardecl || negb (v_vdecl_allowed v) || str_eqb h1 r_comment
+      || (str_eqb h1 r_blockend && str_eqb (v_scope_name v) (s "Function"))) = true ->
+     (match rest with h2 :: _ => negb (str_eqb h2 r_preproc) | [] => true end || str_eqb h1 r_preproc || str_eqb h1 r_comment) = true ->
+     exists v', check_empty_line toks scope v = Ok ([], v')) /\
+  (forall toks scope v h2 rest t0 t1, v_history v = r_empty :: h2 :: rest -> str_eqb h2 r_empty = false ->
+     (str_eqb h2 r_vardecl || str_eqb (v_scope_name v) n_global) = true ->
+     peek toks 0 = Some t0 -> t_type t0 = s "NEWLINE" -> peek toks 1 = Some t1 ->
+     exists v', check_empty_line toks scope v = Ok ([], v')) /\
+  (* CheckFunctionsCount (whole check: at most 5 definitions in the file) and the counters of CheckBrace (25 lines),
+     CheckVariableDeclaration (5 variables), CheckFuncDeclaration (4 parameters): Proofs/ConformingCounters.v *)
+  counters_silent_statement /\
+  (* --- partial checks --- *)
+  (* CheckLineIndent: every line but the `{` line (skipped statements; k tabs = the scope's indentation; `}` one tab less) *)
+  (forall toks scope v h1 rest, v_history v = h1 :: rest -> str_in h1 indent_skipped = true -> check_line_indent toks scope v = Ok ([], v)) /\
+  (forall toks scope v k h1 rest t0, v_history v = h1 :: rest -> str_in h1 indent_skipped = false -> leading toks [ty_tab] k ->
+     (forall t, peek toks (Z.of_nat k) = Some t -> str_in (t_type t) [s "LBRACE"; s "RBRACE"] = false) ->
+     peek toks 0 = Some t0 -> v_scope_indent v = Z.of_nat k ->
+     exists v', check_line_indent toks scope v = Ok ([], v') /\ v_scope_indent v' = v_scope_indent v) /\
+  (forall toks scope v k h1 rest t0 tb, v_history v = h1 :: rest -> str_in h1 indent_skipped = false -> leading toks [ty_tab] k ->
+     peek toks (Z.of_nat k) = Some tb -> t_type tb = s "RBRACE" -> peek toks 0 = Some t0 -> v_scope_indent v = (Z.of_nat k + 1)%Z ->
+     exists v', check_line_indent toks scope v = Ok ([], v')) /\
+  (* CheckExpressionStatement: statements without `return` *)
+  (forall toks scope v (n : nat), (n < List.length toks + 2)%nat -> (forall j, (0 <= j < Z.of_nat n)%Z -> expr_pos_ok toks j = true) ->
+     is_false (checkl toks (Z.of_nat n) [s "SEMI_COLON"; s "NEWLINE"]) = false -> check_expression_statement toks scope v = Ok ([], v)) /\
+  (* CheckUtypeDeclaration (translated part), in a header *)
+  (forall toks scope ftype v, str_eqb ftype (s ".c") = false -> str_in (v_scope_name v) [s "GlobalScope"; s "UserDefinedType"] = true ->
+     check_utype_forbidden toks scope ftype v = Ok ([], v)).
+
+Lemma checks_silent : C01_checks_silent_statement.
+Proof.
+  split; [exact silent_check_codes_tied|]. split; [exact conforming_text_kinds|].
+  split; [exact ternary_silent|]. split; [exact label_silent|]. split; [exact line_len_silent|].
+  split; [exact many_instructions_silent|]. split; [exact empty_line_silent_on_statement|].
+  split; [exact empty_line_silent_on_empty_line|]. split; [exact counters_silent|].
+  split; [exact line_indent_skipped|]. split; [exact line_indent_silent|]. split; [exact line_indent_rbrace_silent|].
+  split; [exact expression_statement_silent|]. exact utype_silent_in_header.
+Qed.
+
 Definition C01_partial_K_statement : Prop :=
+  (* the translated checks are silent on conforming statements (ten checks, see C01_checks_silent_statement) *)
+  C01_checks_silent_statement /\
   (* K is tied to its emitters *)
   K_emitters_tied /\
   (* (a) header: any field values with well-formed stamps, ANY statements after the header: no INVALID_HEADER (Props/C13) *)
@@ -46,6 +139,7 @@ Definition C01_partial_K_statement : Prop :=
 
 Lemma partial_K : C01_partial_K_statement.
 Proof.
+  split; [exact checks_silent|].
   split; [exact K_emitters|].
   split; [exact Props.C13.C13_accept|].
   split; [exact Props.C14.C14_accept|].
